@@ -143,7 +143,21 @@ def check_L5(report, facts, rule):
     pl = pass_pipeline(facts)
     afn = facts.funcs['assemble']
     n = 0
+    # `if labels is None: labels = {}` forks the evaluation: on one path every pass gets the caller's dict, on the other an object
+    # created in this call.  A fresh object is fine on a path as long as the caller's dict is what the pass gets on another one.
+    seen_values = {}
+    from .layout import item_passes as _ip
     for value, calls in pl.all_paths():
+        for nm, c, its in _ip(facts, calls):
+            f = facts.funcs.get(c.name)
+            if f is None:
+                continue
+            params = [a.arg for a in f.args.args]
+            if 'labels' in params and params.index('labels') < len(c.args):
+                seen_values.setdefault(c.name, set()).add(c.args[params.index('labels')])
+    for value, calls, assumed in pl.all_paths_with_assumptions():
+        none_path = ('labels is None', True) in assumed or ('labels is not None', False) in assumed or ('labels == None', True) in assumed \
+            or ('not labels is None', False) in assumed
         tables = []
         from .layout import item_passes
         for nm, c, its in item_passes(facts, calls):
@@ -158,7 +172,7 @@ def check_L5(report, facts, rule):
             tables.append((c, v))
         for c, v in tables:
             n += 1
-            ok = v is not None and caller_table(v, 'labels')
+            ok = v is not None and (caller_table(v, 'labels') or (v[0] == 'ref' and none_path and ('param', 'labels') in seen_values.get(c.name, set())))
             report.check(ok, rule, 'compress={}: {} receives the caller\'s labels dict (a fresh one only when none is given)'.format(value, c.name),
                          lambda c=c, v=v: Finding(rule, 'assemble', c.node, '{} does not receive the label table of this assemble() call (it gets {})'.format(
                              c.name, v[:2] if v else None), line=getattr(c.node, 'lineno', afn.lineno)))
